@@ -771,8 +771,10 @@ class Evaluator:
             v = self.expr(br.args["true"], sc.with_guard(here))
             branches.append((here, v))
             taken = z3.Or(taken, c)
+            if z3.is_true(z3.simplify(taken)):
+                break       # a branch that is always taken: the remaining branches are dead code (DuckDB folds them away as well)
         d = e.args.get("default")
-        res = self.expr(d, sc.with_guard(z3.Not(taken))) if d is not None else NULL()
+        res = self.expr(d, sc.with_guard(z3.Not(taken))) if (d is not None and not z3.is_true(z3.simplify(taken))) else NULL()
         for here, v in reversed(branches):
             res = ite(here, v, res)
         return res
@@ -935,6 +937,33 @@ class Evaluator:
         a, b, c = self.to_str(a), self.to_str(b), self.to_str(c)
         f = self.ctx.uf("replace", z3.StringSort(), z3.StringSort(), z3.StringSort(), z3.StringSort())
         return SV("str", z3.Or(a.null, b.null, c.null), f(a.val, b.val, c.val))
+
+    def x_Bracket(self, e, sc):
+        """string slice s[a:] / s[a:b] (1-based, inclusive) for a >= 1"""
+        a = self.expr(e.this, sc)
+        if len(e.expressions) != 1 or not isinstance(e.expressions[0], exp.Slice):
+            raise Unsupported("bracket expression")
+        sl = e.expressions[0]
+        if a.kind == "null":
+            return NULL("str")
+        if a.kind != "str":
+            raise Unsupported("slice of %s" % a.kind)
+        lo = as_kind(self.expr(sl.this, sc), "int") if sl.this is not None else lit(1)
+        if sl.expression is not None:
+            raise Unsupported("slice with an upper bound")
+        ok = lo.val >= 1
+        v = z3.If(ok, z3.SubString(a.val, lo.val - 1, z3.Length(a.val)), self.ctx.uf("slice_corner", z3.StringSort(), z3.IntSort(), z3.StringSort())(a.val, lo.val))
+        return SV("str", z3.Or(a.null, lo.null), v)
+
+    def x_StrPosition(self, e, sc):
+        """INSTR(s, pat): 1-based position of the first occurrence, 0 when there is none"""
+        a, b = self.expr(e.this, sc), self.expr(e.args["substr"], sc)
+        if e.args.get("position") is not None or e.args.get("occurrence") is not None:
+            raise Unsupported("INSTR with position / occurrence")
+        if "null" in (a.kind, b.kind):
+            return NULL("int")
+        a, b = self.to_str(a), self.to_str(b)
+        return SV("int", z3.Or(a.null, b.null), z3.IndexOf(a.val, b.val, 0) + 1)
 
     def x_Upper(self, e, sc):
         return self._uf1("upper", self.expr(e.this, sc), "str", "str")
